@@ -232,6 +232,10 @@ def load_hdf5(path, meta_only=False):
             dataset_dict = {}
             for dkey in h5["data"]:
                 dset = h5["data"][dkey]
+                if "path" not in dset.attrs:
+                    # left behind by a save that failed part-way
+                    warnings.warn(f"Ignoring incomplete data '{dkey}'!")
+                    continue
                 dbin = dset[...]
                 name = dkey + "_" + pathlib.Path(dset.attrs["path"]).name
                 dpath = pathlib.Path(tdir) / name
@@ -309,15 +313,19 @@ def save_hdf5(h5path, indent, user_rate, user_name, user_comment, h5mode="a"):
         data = h5.require_group("data")
         dhash = hash_file(indent.path)
         if dhash not in data:
-            meas = data.create_dataset(
+            data.create_dataset(
                 dhash,
                 data=np.fromfile(str(indent.path), dtype=bool),
                 **dkw
             )
-            meas.attrs["path"] = str(indent.path)
+        if "path" not in data[dhash].attrs:
+            data[dhash].attrs["path"] = str(indent.path)
         # store indentation data along with the user rate
         ana = h5.require_group("analysis")
         idd = "{}_{}".format(dhash, indent.enum)
+        if idd in ana and "fit" not in ana[idd]:
+            # left behind by a save that failed part-way
+            del ana[idd]
         if idd in ana:
             # Only allow overriding of user data if fit matches.
             # Otherwise, the rating might be wrong.
@@ -341,9 +349,6 @@ def save_hdf5(h5path, indent, user_rate, user_name, user_comment, h5mode="a"):
                     val = str(val)
                 out.attrs["fit {}".format(key)] = val
 
-            out.create_dataset("fit",
-                               data=indent["fit"][...],
-                               **dkw)
             out.create_dataset("fit range",
                                data=indent["fit range"][...],
                                **dkw)
@@ -368,6 +373,12 @@ def save_hdf5(h5path, indent, user_rate, user_name, user_comment, h5mode="a"):
         # add library versions for debugging
         out.attrs["nanite version"] = nanite_version
         out.attrs["h5py version"] = h5py.__version__
+        if "fit" not in out:
+            # The "fit" dataset is written last; `load_hdf5` ignores
+            # groups without it (incomplete save).
+            out.create_dataset("fit",
+                               data=indent["fit"][...],
+                               **dkw)
 
 
 def hdf5_rated(h5path, indent):
